@@ -10,17 +10,17 @@ import (
 
 // Val is a symbolic value: an SMT term plus static (per-path) metadata.
 type Val struct {
-	T     Term
-	Typ   types.Type
-	LV    *LVal         // static lvalue when the value is a pointer produced by Alloc/FieldAddr/IndexAddr
-	Clo   *Closure      // statically known closure
-	Fn    *ssa.Function // statically known function value
-	Tup   []Val         // tuple components
-	Dyn   *Val          // interface: statically known payload
-	World int           // context/store values: world index+1 (0 = not a context)
-	Pfx   string        // store values: key-space prefix term (sort Bytes) rendered
-	Bound *ssa.Function // bound-method closure target
-	Commit *[2]int     // CacheContext commit function: copy world [0] into world [1]
+	T      Term
+	Typ    types.Type
+	LV     *LVal         // static lvalue when the value is a pointer produced by Alloc/FieldAddr/IndexAddr
+	Clo    *Closure      // statically known closure
+	Fn     *ssa.Function // statically known function value
+	Tup    []Val         // tuple components
+	Dyn    *Val          // interface: statically known payload
+	World  int           // context/store values: world index+1 (0 = not a context)
+	Pfx    string        // store values: key-space prefix term (sort Bytes) rendered
+	Bound  *ssa.Function // bound-method closure target
+	Commit *[2]int       // CacheContext commit function: copy world [0] into world [1]
 }
 
 type Closure struct {
@@ -75,26 +75,26 @@ type nameBinding struct {
 }
 
 type Frame struct {
-	fn       *ssa.Function
-	env      map[ssa.Value]Val
-	names    map[string]nameBinding
-	block    *ssa.BasicBlock
-	prev     *ssa.BasicBlock
-	pc       int
-	defers   []deferred
-	freevars []Val
-	params   []Val
-	callInstr ssa.Instruction // in the parent frame; nil for top
-	loopEntry map[int]*loopSnap // header block index -> snapshot at entry (for decreases)
-	contract *Contract
+	fn            *ssa.Function
+	env           map[ssa.Value]Val
+	names         map[string]nameBinding
+	block         *ssa.BasicBlock
+	prev          *ssa.BasicBlock
+	pc            int
+	defers        []deferred
+	freevars      []Val
+	params        []Val
+	callInstr     ssa.Instruction   // in the parent frame; nil for top
+	loopEntry     map[int]*loopSnap // header block index -> snapshot at entry (for decreases)
+	contract      *Contract
 	runningDefers bool
-	deferResume  *deferResume
-	entryHeap   map[string]Term
-	entryWorlds []WorldState
-	panicking   bool
-	recovered   bool
-	stamps      map[ssa.Value]int // execution order of value definitions (latest reaching definition of a name)
-	nstamp      int
+	deferResume   *deferResume
+	entryHeap     map[string]Term
+	entryWorlds   []WorldState
+	panicking     bool
+	recovered     bool
+	stamps        map[ssa.Value]int // execution order of value definitions (latest reaching definition of a name)
+	nstamp        int
 }
 
 type deferResume struct {
@@ -134,16 +134,16 @@ func (f *Frame) clone() *Frame {
 }
 
 type State struct {
-	facts  []Term
-	heap   map[string]Term
-	worlds []WorldState
-	frames []*Frame
-	trace  []string
-	dead   bool
-	nEvents int
+	facts      []Term
+	heap       map[string]Term
+	worlds     []WorldState
+	frames     []*Frame
+	trace      []string
+	dead       bool
+	nEvents    int
 	callCounts map[string]int
-	meta   map[string]Val
-	seenRefs []Term // references observed so far on this path (a later allocation differs from all of them)
+	meta       map[string]Val
+	seenRefs   []Term // references observed so far on this path (a later allocation differs from all of them)
 }
 
 func (s *State) clone() *State {
